@@ -91,6 +91,12 @@ class Farm:
     def all(self):
         return self.on + [self.off]
 
+    def subset(self, rng, n, off_p):
+        """the reference worker, n-1 other hash seeds chosen at random, sometimes the cache-off worker"""
+        others = self.on[1:]
+        pick = rng.sample(others, min(len(others), n - 1))
+        return [self.on[0]] + pick + ([self.off] if rng.random() < off_p else [])
+
     def map(self, servers, steps):
         res = [None] * len(servers)
 
@@ -230,6 +236,7 @@ def gen_step(rng, U):
             conns.append(cn)
         if dim >= 2 and n == 3 and rng.random() < 0.5:
             conns.append([[0, 1, 1], [2, 1, -1]] + ([1] if dim == 2 else [[1, 1, -1]]))
+        rng.shuffle(conns)
         return {'r': k, 'p': {'patches': patches, 'conns': conns, 'name': rng.choice(POOLS['domain'])}}
     if k == 'comm':
         d = U.dom(shape='abs', dims=(2, 3))
@@ -241,6 +248,50 @@ def gen_step(rng, U):
                               'single': rng.random() < 0.4}}
     d = U.dom(shape='map', dims=(2, 3))
     return {'r': 'mapped', 'p': {'dom': d}}
+
+
+def perturb(rng, step):
+    """a computation that looks like `step` (same recipe, same names) but differs in one or two attributes:
+    dimension, shape, bounds, mapping type, space kind, degree - the targeted form of name reuse"""
+    st = copy.deepcopy(step)
+    p = st['p']
+    for _ in range(rng.choice([1, 1, 2])):
+        opts = []
+        if 'dom' in p:
+            opts += ['dim', 'lo' if p['dom'][0] != 'abs' else 'dim', 'mtype' if p['dom'][0] == 'map' else 'dim']
+        if isinstance(p.get('sp'), list):
+            opts.append('kind')
+        if st['r'] == 'hodge':
+            opts += ['k', 'n']
+        if 'dim' in p:
+            opts.append('pdim')
+        if not opts:
+            return st
+        o = rng.choice(opts)
+        if o == 'dim':
+            d = p['dom']
+            i = 4 if d[0] == 'map' else 2
+            allowed = {'tvec': (2, 3), 'logical': (2,), 'comm': (2, 3), 'equation': (1, 2), 'mapped': (2, 3)}.get(st['r'], (1, 2, 3))
+            d[i] = rng.choice([x for x in allowed if x != d[i]] or [d[i]])
+            if st['r'] == 'tvec' and p.get('op') in ('curl', 'rot'):
+                p['op'] = 'curl' if d[i] == 3 else 'rot'
+        elif o == 'lo':
+            p['dom'][-1] = p['dom'][-1] + rng.choice([1, 2, 7])
+        elif o == 'mtype':
+            p['dom'][2] = rng.choice([x for x in ('plain', 'polar', 'identity') if x != p['dom'][2]])
+        elif o == 'kind':
+            kinds = ['h1', 'hcurl', 'hdiv', 'l2', None] if p['sp'][0] == 'V' else ['h1', None, 'l2']
+            p['sp'][2] = rng.choice([x for x in kinds if x != p['sp'][2]])
+        elif o == 'k':
+            p['k'] = rng.choice([x for x in range(p['n'] + 1) if x != p['k']] or [p['k']])
+        elif o == 'n':
+            p['n'] = 5 - p['n']
+            p['k'] = min(p['k'], p['n'])
+        elif o == 'pdim':
+            p['dim'] = rng.choice([x for x in (1, 2, 3) if x != p['dim']])
+            if 'patches' in p:
+                return step     # a join in another dimension needs other connections: keep it as it is
+    return st
 
 
 def rename(step, classes, suffix):
@@ -309,7 +360,7 @@ def correspondence(ctx):
     rng = ctx.rng
     sv = Server(ctx.repo, 0, True)
     try:
-        ncase = 120 if ctx.thorough else 30
+        ncase = 300 if ctx.thorough else 30
         lines, metas = [], []
         for i in range(ncase):
             # objects: TerminalExpr(grad u | laplace u, Omega) with colliding names
@@ -429,8 +480,9 @@ def check_case(o, farm, hist, final, mode, rng, clears=True):
     if ref_out.get('mut'):
         o.fail('mutates-input:%s' % final['r'], 'computing %s alters its inputs: %s' % (fs, ref_out['mut']), step=fs)
     # the final computation alone: other hash seeds, cache off
-    alone = farm.map(farm.all()[1:], [final])
-    for sv, out in zip(farm.all()[1:], alone):
+    servers = farm.subset(rng, farm.per_case, farm.off_p)
+    alone = farm.map(servers[1:], [final])
+    for sv, out in zip(servers[1:], alone):
         o.count('alone:seed/cache')
         if view(out[0]) != ref:
             what = 'PYTHONHASHSEED=%s' % sv.seed if sv.cache else 'SYMPY_USE_CACHE=no'
@@ -440,8 +492,8 @@ def check_case(o, farm, hist, final, mode, rng, clears=True):
             return
     # history + final under every configuration
     steps = (with_clears(rng, hist) if clears else list(hist)) + [final]
-    res = farm.map(farm.all(), steps)
-    for sv, out in zip(farm.all(), res):
+    res = farm.map(servers, steps)
+    for sv, out in zip(servers, res):
         o.count('history-run')
         for st, r in zip(steps, out):
             if r.get('mut'):
@@ -505,6 +557,8 @@ def check_order(o, farm, st, rng):
         r1 = farm.map(farm.on[:3], [var])
         r2 = sv0.ask([base, var])
         for out in [x[0] for x in r1] + [r2[-1]]:
+            if out.get('mut'):
+                o.fail('mutates-input:%s' % st['r'], 'computing %s alters its inputs: %s' % (step_str(var), out['mut']), step=step_str(var))
             if view(out) != ref:
                 o.fail('order:%s:%s:%s' % (st['r'], json.dumps(st['p'], sort_keys=True), perm),
                        'the result of %s depends on the order of supply: order %s gives %s, order %s gives %s'
@@ -532,23 +586,32 @@ def oracle(ctx, factor, seeds):
     # the seeds are spread: small ones and a few large ones
     seedvals = [0, 1, 2, 3, 4][:nseed] if nseed <= 5 else list(range(30)) + [101, 977, 4242, 65537, 99991, 123456789, 2**31 - 1, 7919, 31337, 4294967295]
     farm = Farm(ctx.repo, seedvals)
+    farm.per_case = 5 if not ctx.thorough else 8       # per case: the reference seed + 4 / 7 others (all 40 seeds get used)
+    farm.off_p = 0.5 if not ctx.thorough else 0.25     # the worker without cache is several times slower
     try:
         for key, hist, final, mode in FIXED:
             o.evaluations += 1
             check_case(o, farm, hist, final, mode, rng, clears=False)
-        ncase = (320 if ctx.thorough else 50) * factor
+        ncase = (900 if ctx.thorough else 50) * factor
         for i in range(ncase):
             mode = rng.choice(['hygienic', 'same', 'same', 'reuse', 'reuse'])
             U = Universe(rng, consistent=(mode == 'same'))
             final = gen_step(rng, U)
             hist = [gen_step(rng, U) for _ in range(rng.randint(1, 6))]
+            if mode == 'reuse' and rng.random() < 0.6:
+                # targeted reuse: computations that look like the final one but differ in an attribute
+                for k in range(rng.randint(1, 2)):
+                    hist.insert(rng.randint(0, len(hist)), perturb(rng, final))
+                o.count('reuse:targeted')
+            elif mode == 'same' and rng.random() < 0.5:
+                hist.insert(rng.randint(0, len(hist)), copy.deepcopy(final))     # the very same computation before
             if mode == 'hygienic':
                 hist = [rename(st, CLASSES, '_h%d' % k) for k, st in enumerate(hist)]
             o.evaluations += 1
             check_case(o, farm, hist, final, mode, rng)
             if len(o.samples) < 4:
                 o.samples.append({'mode': mode, 'history': [step_str(s) for s in hist], 'final': step_str(final)})
-        nord = (120 if ctx.thorough else 24) * factor
+        nord = (240 if ctx.thorough else 24) * factor
         U = Universe(rng, consistent=False)
         k = 0
         while k < nord:
